@@ -23,6 +23,7 @@ META = dict(
          "(repay/close burn exactly what they retire; interest and closing fees never mint); an accepted create/draw/stable mint credits the user "
          "with exactly the new principal less floor(principal*fee) and the collector with the fee. Tied to the code by the C01 correspondence run; "
          "supply and delivery monitors are evaluated on real balances.",
-    note="Partial: auction settlement and emergency redemption are outside the model, so the inequality clause for histories WITH auction "
-         "settlement is only monitored on the real state, not proved. Trusted: Lean kernel, model faithfulness via correspondence, message atomicity.",
+    note="The inequality supply <= principal is proved for every history incl. liquidation seizures and auction settlements (the burn at "
+         "settlement is modelled); equality for histories without settlement. Partial: emergency redemption (x/esm) is outside the model. "
+         "Trusted: Lean kernel, model faithfulness via correspondence, message atomicity.",
 )
